@@ -1063,8 +1063,8 @@ def check_c03(run):
     # code -> spec: kernel-call traces of the OpenMP executors under seeded random schedules must respect the dataflow guards of Fmm.tla
     trace_campaign(run, "C03", run.tier, modes=(0, 1), events=4)
     # lifetime of captured variables: the same schedules on the AddressSanitizer build (detect_stack_use_after_return)
-    for name, consts in omp_configs(run.tier)[:: (2 if run.tier == "quick" else 1)]:
-        pairs, mism, _ = omp_campaign(run, "C03-asan-" + name, consts, "quick", variant="asan", graphs=0, limit=60 if run.tier == "quick" else 400)
+    for name, consts in omp_configs(run.tier)[::2]:
+        pairs, mism, _ = omp_campaign(run, "C03-asan-" + name, consts, "quick", variant="asan", graphs=0, limit=60 if run.tier == "quick" else 250)
         report_mismatches(run, "C03", "C03-asan-" + name, pairs, [(k, re.sub(r"-(immediate|deferred|tlc)-.*$", "", key), "%s [%s]" % (t, key)) for k, key, t in mism], C03_KINDS)
     run.coverage["rule"] = ("one case = one TLC scenario (occupancy, block size, grouping mode, history) executed by TbfOpenmpAlgorithm / TbfOpenmpAlgorithmTsm under the mock "
                             "GOMP runtime with each listed schedule (immediate; fully deferred fifo, lifo, random, priority-inverted, with stack scrubbing; thread counts 1-16; "
